@@ -96,6 +96,8 @@ def call(case, grid, ds, nm, lazy):
         da = da.assign_coords(aux_=aux)
     kw = model.call_kwargs(a, nm)
     axis = [nm(x) for x in a["axis"]]
+    if a.get("axis_as_tuple") and case["kind"] in ("op", "weighted", "metric"):
+        axis = tuple(axis)
     kind = case["kind"]
     if kind == "op":
         return getattr(grid, case["op"])(da, axis, **kw)
